@@ -196,6 +196,10 @@ func (p *phaser) Phase(orfs, seqs SeqBag) (phased chan PhasedSequence, err error
 
 	// All threads consuming sequences
 	var wg sync.WaitGroup
+	// Set to true (under mux) as soon as a thread has
+	// met an error: the other threads then stop
+	var mux sync.Mutex
+	stop := false
 	for cpu := 0; cpu < p.cpus; cpu++ {
 		wg.Add(1)
 		go func() {
@@ -210,17 +214,20 @@ func (p *phaser) Phase(orfs, seqs SeqBag) (phased chan PhasedSequence, err error
 					ph, inerr = p.alignAgainstRefsNT(seq, orfs.Sequences())
 				}
 
-				if ph.Err != nil {
-					err = inerr
-					phased <- ph
-					return
-				} else if inerr != nil {
-					err = inerr
-					ph.Err = inerr
+				if ph.Err != nil || inerr != nil {
+					if ph.Err == nil {
+						ph.Err = inerr
+					}
+					mux.Lock()
+					stop = true
+					mux.Unlock()
 					phased <- ph
 					return
 				}
-				if err != nil {
+				mux.Lock()
+				stopped := stop
+				mux.Unlock()
+				if stopped {
 					return
 				}
 				phased <- ph
